@@ -76,6 +76,21 @@ def renderWord : Word → Str
   | .plain n => n
   | .br pre g1 mid g2 => pre ++ renderGroup g1 ++ mid ++ renderTail g2
 
+/-- separator characters between words -/
+def sepChar (c : Char) : Bool := c = ',' || c = ' ' || c = '\t'
+
+/-- the separator runs of a rendering: blanks/commas/tabs only, non-empty between two words
+    (after the last word the run may be empty) -/
+def sepsOK : List (Word × Str) → Bool
+  | [] => true
+  | [(_, s)] => s.all sepChar
+  | (_, s) :: rest => !s.isEmpty && s.all sepChar && sepsOK rest
+
+/-- an expression as text: an optional leading separator run, then every word followed by its
+    separator run (any non-empty mix of `,` blank tab) -/
+def render (lead : Str) (items : List (Word × Str)) : Str :=
+  lead ++ items.flatMap fun p => renderWord p.1 ++ p.2
+
 /-- first-level expansion: the first group in place, anything after it verbatim -/
 def Word.expand₁ : Word → List Str
   | .plain n => [n]
@@ -135,8 +150,6 @@ def balanced : Nat → Str → Bool
     if c = '[' then balanced (d + 1) cs
     else if c = ']' then (match d with | 0 => false | d' + 1 => balanced d' cs)
     else balanced d cs
-
-def sepChar (c : Char) : Bool := c = ',' || c = ' ' || c = '\t'
 
 /-- words = maximal runs without a separator at bracket depth 0 (`cur` is kept reversed) -/
 def splitWords : Nat → Str → Str → List Str
